@@ -11,6 +11,7 @@ package c17
 
 import (
 	"encoding/json"
+	"errors"
 	"fmt"
 	"math"
 	"net"
@@ -34,14 +35,18 @@ import (
 type fakeDB struct{}
 
 func (fakeDB) GetIPInfo(ip net.IP) (ipinfo.IPInfo, error) {
+	if ip.Equal(net.ParseIP("198.51.100.9")) {
+		// a client the database fails for: its tunnels count all the same (location XD)
+		return ipinfo.IPInfo{}, errors.New("database lookup failed")
+	}
 	if ip.Equal(net.ParseIP("93.184.216.5")) {
 		return ipinfo.IPInfo{CountryCode: "US", ASN: ipinfo.ASN{Number: 64500, Organization: "ExampleNet"}}, nil
 	}
 	return ipinfo.IPInfo{CountryCode: "DE", ASN: ipinfo.ASN{Number: 64501, Organization: "BeispielNetz"}}, nil
 }
 
-var clientIPs = []string{"93.184.216.5", "2606:4700::99"}
-var locOf = []string{"US", "DE"}
+var clientIPs = []string{"93.184.216.5", "2606:4700::99", "198.51.100.9"}
+var locOf = []string{"US", "DE", "XD"}
 
 type pair struct {
 	ip  int
@@ -62,6 +67,18 @@ const (
 	opScrape    = 14
 	opUnauth    = 15
 	nOpsNoEmpty = 16
+	// third pass: a client whose location lookup fails (pair pE) and a key without id over UDP (pair pU)
+	opOpenTCPE  = 16
+	opCloseTCPE = 17
+	opOpenUDPE  = 18
+	opCloseUDPE = 19
+	opOpenUDPU  = 20
+	opCloseUDPU = 21
+)
+
+var (
+	pE = pair{2, "k1"}
+	pU = pair{0, ""}
 )
 
 type seqCase struct {
@@ -191,16 +208,22 @@ func runSeq(ctx *engine.Ctx, sc seqCase) {
 	obs := ""
 	for i, op := range sc.Ops {
 		switch {
-		case op >= opOpenTCP && op < opOpenTCP+4:
-			p := pairs[op-opOpenTCP]
+		case op == opOpenTCPE || (op >= opOpenTCP && op < opOpenTCP+4):
+			p := pE
+			if op != opOpenTCPE {
+				p = pairs[op-opOpenTCP]
+			}
 			port++
 			c := world.NewMemConn(nil, addrOf(p.ip, port))
 			cm := sm.AddOpenTCPConnection(c)
 			cm.AddAuthenticated(p.key)
 			openTCP[p] = append(openTCP[p], cm)
 			m.open(p)
-		case op >= opCloseTCP && op < opCloseTCP+4:
-			p := pairs[op-opCloseTCP]
+		case op == opCloseTCPE || (op >= opCloseTCP && op < opCloseTCP+4):
+			p := pE
+			if op != opCloseTCPE {
+				p = pairs[op-opCloseTCP]
+			}
 			if len(openTCP[p]) == 0 {
 				continue
 			}
@@ -208,14 +231,30 @@ func runSeq(ctx *engine.Ctx, sc seqCase) {
 			openTCP[p] = openTCP[p][1:]
 			cm.AddClosed("OK", metrics.ProxyMetrics{ClientProxy: 10, ProxyTarget: 5, TargetProxy: 7, ProxyClient: 12}, time.Second)
 			m.close(p)
-		case op >= opOpenUDP && op < opOpenUDP+2:
-			p := pairs[op-opOpenUDP]
+		case op == opOpenUDPE || op == opOpenUDPU || (op >= opOpenUDP && op < opOpenUDP+2):
+			var p pair
+			switch op {
+			case opOpenUDPE:
+				p = pE
+			case opOpenUDPU:
+				p = pU
+			default:
+				p = pairs[op-opOpenUDP]
+			}
 			port++
 			ua := &net.UDPAddr{IP: net.ParseIP(clientIPs[p.ip]), Port: port}
 			openUDP[p] = append(openUDP[p], sm.AddUDPNatEntry(ua, p.key))
 			m.open(p)
-		case op >= opCloseUDP && op < opCloseUDP+2:
-			p := pairs[op-opCloseUDP]
+		case op == opCloseUDPE || op == opCloseUDPU || (op >= opCloseUDP && op < opCloseUDP+2):
+			var p pair
+			switch op {
+			case opCloseUDPE:
+				p = pE
+			case opCloseUDPU:
+				p = pU
+			default:
+				p = pairs[op-opCloseUDP]
+			}
 			if len(openUDP[p]) == 0 {
 				continue
 			}
@@ -257,7 +296,7 @@ func ttSeq(ctx *engine.Ctx) {
 		depth = 6
 	}
 	// the alphabet without the empty-key pair, and (at depth-1) with it
-	for pass := 0; pass < 2; pass++ {
+	for pass := 0; pass < 3; pass++ {
 		var alpha []int
 		d := depth
 		for op := 0; op < nOpsNoEmpty; op++ {
@@ -271,6 +310,11 @@ func ttSeq(ctx *engine.Ctx) {
 			alpha = append(alpha, op)
 		}
 		if pass == 1 {
+			d = depth - 1
+		}
+		if pass == 2 {
+			// a client whose lookup fails, and a key without id over UDP next to TCP
+			alpha = []int{opOpenTCPE, opCloseTCPE, opOpenUDPE, opCloseUDPE, opOpenUDPU, opCloseUDPU, opOpenTCP + 3, opCloseTCP + 3, opTick1, opScrape}
 			d = depth - 1
 		}
 		total := int64(1)
